@@ -131,19 +131,21 @@ class XsdAssert(XsdComponent, ElementPathMixin[Union['XsdAssert', SchemaElementT
         if value is not None:
             value = self.base_type.text_decode(value, context=context)
 
-        xpath_context = XPathContext(
-            root=context.source.get_xpath_node(obj),
-            namespaces=context.namespaces,
-            uri=context.source.url,
-            fragment=True,
-            variables={'value': value},
-            schema=self.parser.schema,
-        )
-
         try:
+            xpath_context = XPathContext(
+                root=context.source.get_xpath_node(obj),
+                namespaces=context.namespaces,
+                uri=context.source.url,
+                fragment=True,
+                variables={'value': value},
+                schema=self.parser.schema,
+            )
             if not self.token.evaluate(xpath_context):
                 context.validation_error(validation, self, "assertion test is false", obj)
-        except ElementPathError as err:
+        except (ElementPathError, ValueError) as err:
+            # Includes the errors of the XPath processor for malformed QName values of
+            # the instance (e.g. xsi:type="a:b:c"), met when the schema is applied to
+            # the nodes of the element or during the evaluation.
             context.validation_error(validation, self, err, obj)
 
     # For implementing ElementPathMixin
